@@ -20,6 +20,9 @@ Sections
      and cumulation (broadcast rule for `initial`); the change depends on the cells only (shared rows do not leak)
   6. the shift argument as the caller passes it (int / float / keyword / other string); default initial values
   7. keyword shifts at the series level with the C09 calendar rule made explicit; the neutral-value fill of "tty"
+  9. the default call `cum_X(X(s,k), k, initial=s)` without a span
+  8. chain-by-chain inversion through series WITH missing values (both directions, every lag); the rejection branches of
+     the cumulation; reference periods before the start read as missing; the annualisation factor of every frequency
 -/
 import Mathlib.Analysis.SpecialFunctions.Pow.Real
 import Mathlib.Tactic.FieldSimp
@@ -1251,7 +1254,7 @@ theorem shiftArg_invalid_iff :
 /-- a change function given a Python `int` or a keyword is the change of section 1 -/
 theorem changeArg_int_kw (S : Sym α) (kind : ChangeKind) (s : Ser α) :
     (∀ k, changeArg S kind (.int k) s = change S kind (.by_ k) s) ∧
-    (∀ b, b ≠ ShiftBy.by_ 0 → (∀ k, b ≠ .by_ k) → changeArg S kind (.kw b) s = change S kind b s) := by
+    (∀ b, (∀ k, b ≠ .by_ k) → changeArg S kind (.kw b) s = change S kind b s) := by
   constructor
   · intro k
     unfold changeArg change
@@ -1263,7 +1266,7 @@ theorem changeArg_int_kw (S : Sym α) (kind : ChangeKind) (s : Ser α) :
         simp [ShiftArg.invalid, this]
       · have : 0 ≤ k := by omega
         simp [ShiftArg.invalid, this, temporalChange, validShift, hk]
-  · intro b _ hb
+  · intro b hb
     unfold changeArg change
     cases hfx : kind.fixedShift with
     | some k' => rfl
@@ -1401,5 +1404,336 @@ example : (ShiftArg.float (-1 : Rat)).invalid = false ∧ (ShiftArg.float ((-3 :
   decide +kernel
 example : exSer.freq ∈ IrisVerif.Dates.C09.regularFreqs := by decide
 example : toYearSegment ⟨exSer.freq, 8080⟩ = .ok (2020, 1) := by decide
+
+/-! ## 8. Chains: the round trip through a series WITH missing values; rejection branches of the cumulation;
+reference periods before the start of the series -/
+
+section chains
+variable {α : Type} [Add α] [Sub α] [Mul α] [Div α] [NatCast α] [IntCast α]
+
+/-- period `u` lies on the chain of period `T` for the lag `k`: `u = T + n·k`. A cumulation at lag `k` consists of
+`|k|` interleaved chains that never touch each other. -/
+def OnChain (k T u : Int) : Prop := ∃ n : Int, u = T + n * k
+
+theorem OnChain.self (k T : Int) : OnChain k T T := ⟨0, by simp⟩
+
+theorem OnChain.step {k T u : Int} (h : OnChain k T u) : OnChain k T (u + k) ∧ OnChain k T (u - k) := by
+  obtain ⟨n, rfl⟩ := h
+  refine ⟨⟨n + 1, ?_⟩, ⟨n - 1, ?_⟩⟩
+  · rw [Int.add_mul, Int.one_mul]; omega
+  · rw [Int.sub_mul, Int.one_mul]; omega
+
+/-- forward loop restricted to a region `P` inside the initial span that the loop respects (see
+`foldl_stepForward_inv_on`) -/
+theorem cumulate_forward_reproduces_on (S : Sym α) (cum : CumKind) (by_ : ShiftBy) (f : Freq) (a b step : Int)
+    (s change : Ser α) (hab : a ≤ b) (hcf : change.freq = f) (hsf : s.freq = f)
+    (zs : List (Int × Int)) (hzs : zipShift f by_ (pyRange a (b + 1) step) = .ok zs) (P : Int → Prop)
+    (hP : ∀ u, P u → minOr a (zs.map (·.2)) ≤ u ∧ u ≤ b)
+    (h : ∀ p ∈ zs, P p.1 → P p.2 ∧
+      lift2 (cum.domF S) (cum.forward S) (s.get p.2) (change.get p.1) = s.get p.1) :
+    ∃ o, cumulateForward S cum by_ (.series s) f a b step change = .ok o ∧ ∀ t, P t → o.get t = s.get t := by
+  have hba : ¬ b < a := by omega
+  refine ⟨Ser.trim (zs.foldl (stepForward S cum change) ⟨f, minOr a (zs.map (·.2)), b, fun t => (Init.series s).get t⟩), ?_, ?_⟩
+  · simp [cumulateForward, hzs, bind, Except.bind, hba, hcf, hsf, Init.freqOk, pure, Except.pure]
+  · intro t ht
+    rw [Ser.get_trim]
+    refine foldl_stepForward_inv_on S cum change s.get P zs _ ?_ h t ht
+    intro u hu
+    obtain ⟨h1, h2⟩ := hP u hu
+    simp [Ser.get, h1, h2, Init.get]
+
+/-- **Inversion, forward, chain by chain — series with missing values allowed.** Every `k < 0`, every forward span:
+the cumulation of the change with the original as initial condition reproduces the original value in period `T`
+(anywhere in `[a + k, b]`) as soon as the original is defined and admissible on `T`'s own chain `T, T + k, T + 2k, …`
+down to the initial periods — whatever is missing on the other `|k| − 1` chains or later on the same chain. -/
+theorem inverts_forward_chainwise (S : Sym α) (ck : ChangeKind) (cum : CumKind) (ok : α → Prop)
+    (hflex : ck.fixedShift = none)
+    (law : ∀ fac x y, ok x → ok y →
+      lift2 (cum.domF S) (cum.forward S) (some y) (lift2 (ck.dom S) (ck.fn S fac) (some x) (some y)) = some x)
+    (s : Ser α) (k : Int) (hk : k < 0) (a b step : Int) (hstep : 0 < step) (hab : a ≤ b)
+    (T : Int) (hT1 : a + k ≤ T) (hT2 : T ≤ b)
+    (hs : ∀ u, a + k ≤ u → u ≤ T → OnChain k T u → ∃ x, s.get u = some x ∧ ok x) :
+    ∃ c o, change S ck (.by_ k) s = .ok c ∧
+      temporalCumulation S cum (.by_ k) (some (.series s))
+        (some ⟨.res ⟨s.freq, a⟩, .res ⟨s.freq, b⟩, step⟩) c = .ok o ∧
+      o.get T = s.get T := by
+  obtain ⟨c, hc, hcf, hcg⟩ := change_int S ck hflex s k hk
+  have hmemI : ∀ t, t ∈ pyRange a (b + 1) step → a ≤ t ∧ t ≤ b := by
+    intro t ht
+    obtain ⟨i, hi, h1, _⟩ := (mem_pyRange a (b + 1) step t (by omega)).mp ht
+    have : 0 ≤ (i : Int) * step := Int.mul_nonneg (by omega) (by omega)
+    have := h1 hstep
+    omega
+  have hzs := zipShift_int s.freq k (pyRange a (b + 1) step)
+  have hmem : (a, a + k) ∈ (pyRange a (b + 1) step).map (fun t => (t, t + k)) :=
+    List.mem_map.mpr ⟨a, (mem_pyRange a (b + 1) step a (by omega)).mpr ⟨0, by simp, fun _ => by omega, fun h => by omega⟩, rfl⟩
+  have hm2 : a + k ∈ ((pyRange a (b + 1) step).map (fun t => (t, t + k))).map (·.2) :=
+    List.mem_map.mpr ⟨(a, a + k), hmem, rfl⟩
+  have hmin := minOr_le a _ (a + k) hm2
+  obtain ⟨o, ho, hog⟩ := cumulate_forward_reproduces_on S cum (.by_ k) s.freq a b step s c hab hcf rfl _ hzs
+    (fun u => a + k ≤ u ∧ u ≤ T ∧ OnChain k T u)
+    (by intro u hu; exact ⟨by omega, by omega⟩)
+    (by
+      intro p hp hP
+      obtain ⟨t, ht, rfl⟩ := List.mem_map.mp hp
+      obtain ⟨h1, h2⟩ := hmemI t ht
+      simp only at hP ⊢
+      obtain ⟨hP1, hP2, hP3⟩ := hP
+      refine ⟨⟨by omega, by omega, hP3.step.1⟩, ?_⟩
+      obtain ⟨x, hx, okx⟩ := hs t hP1 hP2 hP3
+      obtain ⟨y, hy, oky⟩ := hs (t + k) (by omega) (by omega) hP3.step.1
+      rw [hcg t, hx, hy]
+      exact law _ x y okx oky)
+  refine ⟨c, o, hc, ?_, hog T ⟨hT1, Int.le_refl _, OnChain.self k T⟩⟩
+  have hstep' : ¬ step ≤ 0 := by omega
+  simp [temporalCumulation, validShift, hk, Span.needsResolve, Endpoint.needsResolve, Span.resolve,
+    Endpoint.resolve, Span.make, bind, Except.bind, pure, Except.pure, hstep, ho]
+
+/-- **Inversion, backward, chain by chain.** Every `k < 0`, every backward span `a, a+step, … ≥ b`: the original value
+in a period `T` of the span (or among the `|k|` initial periods after its start) is reproduced as soon as the original is
+defined and admissible on `T`'s chain `T, T − k, T − 2k, …` up to the initial periods. -/
+theorem inverts_backward_chainwise (S : Sym α) (ck : ChangeKind) (cum : CumKind) (ok : α → Prop)
+    (hflex : ck.fixedShift = none)
+    (law : ∀ fac x y, ok x → ok y →
+      lift2 (cum.domB S) (cum.backward S) (some x) (lift2 (ck.dom S) (ck.fn S fac) (some x) (some y)) = some y)
+    (s : Ser α) (k : Int) (hk : k < 0) (a b step : Int) (hstep : step < 0) (hba : b ≤ a)
+    (T : Int) (hT : T ∈ pyRange a (b - 1) step ∨ (a ≤ T ∧ T ≤ a - k))
+    (hs : ∀ u, T ≤ u → u ≤ a - k → OnChain k T u → ∃ x, s.get u = some x ∧ ok x) :
+    ∃ c o, change S ck (.by_ k) s = .ok c ∧
+      temporalCumulation S cum (.by_ k) (some (.series s))
+        (some ⟨.res ⟨s.freq, a⟩, .res ⟨s.freq, b⟩, step⟩) c = .ok o ∧
+      o.get T = s.get T := by
+  obtain ⟨c, hc, hcf, hcg⟩ := change_int S ck hflex s k hk
+  have hmemI : ∀ t, t ∈ pyRange a (b - 1) step → b ≤ t ∧ t ≤ a := by
+    intro t ht
+    obtain ⟨i, hi, _, h2⟩ := (mem_pyRange a (b - 1) step t (by omega)).mp ht
+    have : (i : Int) * step ≤ 0 := Int.mul_nonpos_of_nonneg_of_nonpos (by omega) (by omega)
+    have := h2 hstep
+    omega
+  have hamem : a ∈ pyRange a (b - 1) step :=
+    (mem_pyRange a (b - 1) step a (by omega)).mpr ⟨0, by simp, fun h => by omega, fun _ => by omega⟩
+  have hne : (pyRange a (b - 1) step).isEmpty = false := by
+    cases hl : pyRange a (b - 1) step with
+    | nil => rw [hl] at hamem; simp at hamem
+    | cons x xs => rfl
+  have hTle : T ≤ a - k := by
+    rcases hT with h | h
+    · have := hmemI T h; omega
+    · exact h.2
+  have hminT : minOr a (pyRange a (b - 1) step) ≤ T := by
+    rcases hT with h | h
+    · exact minOr_le a _ T h
+    · have := minOr_le a _ a hamem; omega
+  refine ⟨c, Ser.trim ((pyRange a (b - 1) step).foldl (stepBackward S cum k c)
+    ⟨s.freq, minOr a (pyRange a (b - 1) step), a - k, fun t => (Init.series s).get t⟩), hc, ?_, ?_⟩
+  · have h1 : ¬ step > 0 := by omega
+    simp [temporalCumulation, validShift, hk, Span.needsResolve, Endpoint.needsResolve, Span.resolve,
+      Endpoint.resolve, Span.make, bind, Except.bind, pure, Except.pure, hstep, h1, cumulateBackward, hne, hcf,
+      Init.freqOk]
+  · rw [Ser.get_trim]
+    refine foldl_stepBackward_inv_on S cum k c s.get (fun u => T ≤ u ∧ u ≤ a - k ∧ OnChain k T u) _ _ ?_ ?_ T
+      ⟨Int.le_refl _, hTle, OnChain.self k T⟩
+    · intro u hu
+      have h1 : minOr a (pyRange a (b - 1) step) ≤ u ∧ u ≤ a - k := ⟨by omega, hu.2.1⟩
+      simp [Ser.get, h1, Init.get]
+    · intro sh hsh hP
+      obtain ⟨h1, h2⟩ := hmemI sh hsh
+      obtain ⟨hP1, hP2, hP3⟩ := hP
+      refine ⟨⟨by omega, by omega, hP3.step.2⟩, ?_⟩
+      obtain ⟨x, hx, okx⟩ := hs (sh - k) (by omega) (by omega) hP3.step.2
+      obtain ⟨y, hy, oky⟩ := hs sh hP1 hP2 hP3
+      have e : sh - k + k = sh := by omega
+      rw [hcg (sh - k), e, hx, hy]
+      exact law _ x y okx oky
+
+end chains
+
+/-- the chain-wise round trip for the differences over any field: a series may have missing values on other chains -/
+theorem cum_diff_inverts_chainwise {K : Type} [Field K] (S : Sym K) (s : Ser K) (k : Int) (hk : k < 0)
+    (a b step : Int) (hstep : 0 < step) (hab : a ≤ b) (T : Int) (hT1 : a + k ≤ T) (hT2 : T ≤ b)
+    (hs : ∀ u, a + k ≤ u → u ≤ T → OnChain k T u → ∃ x, s.get u = some x) :
+    ∃ c o, change S .diff (.by_ k) s = .ok c ∧
+      temporalCumulation S .diff (.by_ k) (some (.series s)) (some (spanOf s.freq a b step)) c = .ok o ∧
+      o.get T = s.get T :=
+  inverts_forward_chainwise S .diff .diff (fun _ => True) rfl (fun fac x y _ _ => law_diff_forward S fac x y) s k hk
+    a b step hstep hab T hT1 hT2 (fun u h1 h2 h3 => by obtain ⟨x, hx⟩ := hs u h1 h2 h3; exact ⟨x, hx, trivial⟩)
+
+/-! ### rejection branches of the cumulation (the model rejects what the code rejects) -/
+
+section rejections
+variable {α : Type} [Add α] [Sub α] [Mul α] [Div α] [NatCast α] [IntCast α]
+
+/-- a non-negative number is not a valid shift for a cumulation either -/
+theorem cum_rejects_leads (S : Sym α) (kind : CumKind) (k : Int) (hk : 0 ≤ k) (initial : Option (Init α))
+    (span : Option Span) (self : Ser α) :
+    temporalCumulation S kind (.by_ k) initial span self = .error .badInput := by
+  have : ¬ k < 0 := by omega
+  simp [temporalCumulation, validShift, this]; rfl
+
+/-- a keyword shift cannot be used in a backward cumulation (`Span.shift` of a string raises) -/
+theorem cum_backward_keyword_rejected (S : Sym α) (kind : CumKind) (by_ : ShiftBy) (hkw : ∀ k, by_ ≠ .by_ k)
+    (initial : Init α) (f : Freq) (a b step : Int) (orig : Ser α) :
+    cumulateBackward S kind by_ initial f a b step orig = .error .badInput := by
+  cases by_ with
+  | by_ k => exact absurd rfl (hkw k)
+  | yoy => rfl
+  | soy => rfl
+  | eopy => rfl
+  | tty => rfl
+
+/-- an empty backward span (`start < end` with a negative step) is rejected (`min()` of nothing) -/
+theorem cum_backward_empty_span_rejected (S : Sym α) (kind : CumKind) (k : Int) (initial : Init α) (f : Freq)
+    (a b step : Int) (hstep : step < 0) (hab : a < b) (orig : Ser α) :
+    cumulateBackward S kind (.by_ k) initial f a b step orig = .error .badInput := by
+  have hnil : pyRange a (b - 1) step = [] := by
+    have : pyRangeLen a (b - 1) step = 0 := by
+      unfold pyRangeLen
+      have h1 : ¬ step > 0 := by omega
+      have h2 : ¬ b - 1 < a := by omega
+      simp [h1, hstep, h2]
+    simp [pyRange, this]
+  simp [cumulateBackward, hnil]; rfl
+
+/-- an empty forward span: a series as `initial` is rejected, a number gives the empty series -/
+theorem cum_forward_empty_span (S : Sym α) (kind : CumKind) (by_ : ShiftBy) (f : Freq) (a b step : Int)
+    (hstep : 0 < step) (hba : b < a) (change : Ser α) :
+    (∀ s : Ser α, cumulateForward S kind by_ (.series s) f a b step change = .error .badInput) ∧
+    (∀ x : α, ∃ o, cumulateForward S kind by_ (.scalar x) f a b step change = .ok o ∧ ∀ t, o.get t = none) := by
+  have hnil : pyRange a (b + 1) step = [] := by
+    have : pyRangeLen a (b + 1) step = 0 := by
+      unfold pyRangeLen
+      have h2 : ¬ a < b + 1 := by omega
+      simp [hstep, h2]
+    simp [pyRange, this]
+  constructor
+  · intro s
+    simp [cumulateForward, hnil, zipShift, bind, Except.bind, pure, Except.pure, hba]; rfl
+  · intro x
+    refine ⟨Ser.empty f, ?_, fun t => ?_⟩
+    · simp [cumulateForward, hnil, zipShift, bind, Except.bind, pure, Except.pure, hba]
+    · have : ¬ ((0 : Int) ≤ t ∧ t ≤ -1) := by omega
+      simp [Ser.empty, Ser.get, this]
+
+/-- mixing frequencies is rejected: a non-empty change series, or a non-empty `initial` series, of another frequency
+than the span -/
+theorem cum_forward_mixed_frequency_rejected (S : Sym α) (kind : CumKind) (k : Int) (initial : Init α) (f : Freq)
+    (a b step : Int) (hab : a ≤ b) (change : Ser α)
+    (hmix : (change.isEmpty = false ∧ change.freq ≠ f) ∨ initial.freqOk f = false) :
+    cumulateForward S kind (.by_ k) initial f a b step change = .error .mixedFreq := by
+  have hba : ¬ b < a := by omega
+  rcases hmix with ⟨h1, h2⟩ | h
+  · simp [cumulateForward, zipShift_int, bind, Except.bind, hba, h1, h2]; rfl
+  · simp [cumulateForward, zipShift_int, bind, Except.bind, hba, h]; rfl
+
+/-- resolving an open span against a series without a start is rejected -/
+theorem cum_open_span_on_empty_rejected (S : Sym α) (kind : CumKind) (k : Int) (hk : k < 0) (initial : Option (Init α))
+    (self : Ser α) (he : self.isEmpty = true) :
+    temporalCumulation S kind (.by_ k) initial none self = .error .badInput := by
+  simp [temporalCumulation, validShift, hk, Span.make, bind, Except.bind, pure, Except.pure, he, Span.needsResolve,
+    Endpoint.needsResolve]
+  rfl
+
+end rejections
+
+/-! ### reference periods before the start of the series; the annualisation factor of every frequency -/
+
+section edges
+variable {α : Type} [Add α] [Sub α] [Mul α] [Div α] [NatCast α] [IntCast α]
+
+/-- **A reference period outside the rows of the series reads as missing — it never wraps.** For `soy`, `eopy` and
+any negative shift: when the reference period lies before the first row (a series that starts in the middle of a year
+and `soy`, say) the change in that period is missing. -/
+theorem change_reference_before_start_missing (S : Sym α) (kind : ChangeKind) (hflex : kind.fixedShift = none)
+    (s : Ser α) :
+    (∀ k, k < 0 → ∃ o, change S kind (.by_ k) s = .ok o ∧ ∀ t, t + k < s.lo → o.get t = none) ∧
+    (s.freq ≠ .I → ∃ o, change S kind .soy s = .ok o ∧
+      ∀ t p, createSoy ⟨s.freq, t⟩ = .ok p → p.serial < s.lo → o.get t = none) ∧
+    (s.freq ≠ .I → ∃ o, change S kind .eopy s = .ok o ∧
+      ∀ t p, createEopy ⟨s.freq, t⟩ = .ok p → p.serial < s.lo → o.get t = none) := by
+  have hout : ∀ u, u < s.lo → s.get u = none := by
+    intro u hu
+    have : ¬ (s.lo ≤ u ∧ u ≤ s.hi) := by omega
+    simp [Ser.get, this]
+  refine ⟨fun k hk => ?_, fun hf => ?_, fun hf => ?_⟩
+  · obtain ⟨o, ho, _, hg⟩ := change_int S kind hflex s k hk
+    exact ⟨o, ho, fun t ht => by rw [hg t, hout _ ht]; simp [cellFn]⟩
+  · obtain ⟨o, ho, _, hg⟩ := change_soy S kind hflex s hf
+    exact ⟨o, ho, fun t p hp hlt => by rw [hg t p hp, hout _ hlt]; simp [cellFn]⟩
+  · obtain ⟨o, ho, _, hg⟩ := change_eopy S kind hflex s hf
+    exact ⟨o, ho, fun t p hp hlt => by rw [hg t p hp, hout _ hlt]; simp [cellFn]⟩
+
+end edges
+
+/-- **The annualisation factor of every frequency**, on any field: 1 (integer), 1, 2, 4, 12 and 365 (daily). The same
+`factorOf s.freq` enters `adiff/adiff_log/apct/aroc` (`ChangeKind.fn`) and the de-annualising helpers
+`pct_from_apct/roc_from_apct/roc_from_aroc` (`ConvKind.fn`), so `annualised_conversions` holds for every frequency,
+daily and integer included. -/
+theorem factorOf_values {K : Type} [Field K] :
+    (factorOf .I : K) = 1 ∧ (factorOf .Y : K) = 1 ∧ (factorOf .H : K) = 2 ∧ (factorOf .Q : K) = 4 ∧
+    (factorOf .M : K) = 12 ∧ (factorOf .D : K) = 365 := by
+  have h := annualFactor_values
+  simp only [factorOf, h.1, h.2.1, h.2.2.1, h.2.2.2.1, h.2.2.2.2.1, h.2.2.2.2.2]
+  norm_num
+
+/-! ### non-vacuity of section 8 -/
+
+/-- a quarterly series that starts in the third quarter and has a hole on the odd chain: rows 8082..8091, period 8085
+missing -/
+def exHole : Ser ℚ := ⟨.Q, 8082, 8091, fun t => if t = 8085 then none else some (2 ^ (t - 8080).toNat)⟩
+
+/-- lag −2, span 8084..8090: the even chain of `T = 8090` (8090, 8088, …, 8082) avoids the hole at 8085 -/
+example : ∀ u, (8084 : Int) + (-2) ≤ u → u ≤ 8090 → OnChain (-2) 8090 u → ∃ x, exHole.get u = some x := by
+  intro u h1 h2 ⟨n, hn⟩
+  have hne : u ≠ 8085 := by omega
+  have hr : exHole.lo ≤ u ∧ u ≤ exHole.hi := by simp [exHole]; omega
+  exact ⟨2 ^ (u - 8080).toNat, by simp only [Ser.get, hr, if_true]; simp [exHole, hne]⟩
+example : createSoy ⟨exHole.freq, 8083⟩ = .ok ⟨.Q, 8080⟩ ∧ (8080 : Int) < exHole.lo := by decide
+example : (cumulateBackward exSym .diff (.by_ (-1)) (.series exSer) .Q 8082 8085 (-1) exSer) = .error .badInput :=
+  cum_backward_empty_span_rejected exSym .diff (-1) (.series exSer) .Q 8082 8085 (-1) (by omega) (by omega) exSer
+
+/-! ## 9. The default call without a span (composition: change, span resolution, forward loop) -/
+
+section default_span
+variable {α : Type} [Add α] [Sub α] [Mul α] [Div α] [NatCast α] [IntCast α]
+
+/-- `span=None` is the span of the (non-empty) series being cumulated: `Span(None, None)` resolved against `self` -/
+theorem cum_default_span (S : Sym α) (kind : CumKind) (by_ : ShiftBy) (initial : Option (Init α)) (self : Ser α)
+    (hne : self.isEmpty = false) :
+    temporalCumulation S kind by_ initial none self =
+      temporalCumulation S kind by_ initial (some ⟨.res ⟨self.freq, self.lo⟩, .res ⟨self.freq, self.hi⟩, 1⟩) self := by
+  unfold temporalCumulation
+  cases hv : validShift by_ with
+  | false => simp
+  | true =>
+    simp [Span.make, Span.resolve, Endpoint.resolve, Span.needsResolve, Endpoint.needsResolve, hne, bind, Except.bind,
+      pure, Except.pure, Period.add]
+
+/-- **Inversion for the default call** `cum_X(X(s, k), k, initial = s)` (no span): the span is that of the change
+series `c` itself; wherever the original is defined and admissible on `[c.lo + k, c.hi]` the cumulation reproduces it
+there. (End-to-end: change, span resolution, forward loop.) -/
+theorem inverts_forward_default_span (S : Sym α) (ck : ChangeKind) (cum : CumKind) (ok : α → Prop)
+    (hflex : ck.fixedShift = none)
+    (law : ∀ fac x y, ok x → ok y →
+      lift2 (cum.domF S) (cum.forward S) (some y) (lift2 (ck.dom S) (ck.fn S fac) (some x) (some y)) = some x)
+    (s : Ser α) (k : Int) (hk : k < 0) :
+    ∃ c, change S ck (.by_ k) s = .ok c ∧
+      (c.isEmpty = false → (∀ t, c.lo + k ≤ t → t ≤ c.hi → ∃ x, s.get t = some x ∧ ok x) →
+        ∃ o, temporalCumulation S cum (.by_ k) (some (.series s)) none c = .ok o ∧
+          ∀ t, c.lo + k ≤ t → t ≤ c.hi → o.get t = s.get t) := by
+  obtain ⟨c, hc, hcf, _⟩ := change_int S ck hflex s k hk
+  refine ⟨c, hc, fun hne hs => ?_⟩
+  have hle : c.lo ≤ c.hi := by simp [Ser.isEmpty] at hne; omega
+  obtain ⟨c', o, hc', ho, hog⟩ := inverts_forward S ck cum ok hflex law s k hk c.lo c.hi 1 (by omega) hle hs
+  rw [hc] at hc'
+  injection hc' with e
+  subst e
+  refine ⟨o, ?_, hog⟩
+  rw [cum_default_span S cum (.by_ k) _ c hne, hcf]
+  exact ho
+
+end default_span
+/-- the change of the example series is not empty and spans 8081..8091: the default span of its cumulation -/
+example : (change exSym .diff (.by_ (-1)) exSer).toOption.map (fun c => (c.isEmpty, c.lo, c.hi)) = some (false, 8081, 8091) := by
+  decide +kernel
 
 end IrisVerif.C13
